@@ -1126,6 +1126,19 @@ func genLimit(r *rand.Rand, id string, size int, total int) []string {
 		} else if g.pick(6) == 0 {
 			limitWrite(g, kind, p)
 			g.add("obs %d", p)
+		} else if g.pick(5) == 0 {
+			// "load more" on the store as it is: everything, beyond the log length, or (event logs only: the
+			// key-value and document views are never reset, and a load that trims a LIVE log is outside
+			// what the properties say about views) anything above the limit it was opened with
+			m := -1
+			switch {
+			case kind == "log" && a-2 > 0 && g.pick(2) == 0:
+				m = a - 2 + 1 + g.pick(6)
+			case g.pick(2) == 0:
+				m = 1000 + g.pick(3) // beyond any log length
+			}
+			g.add("liveload %d %d", p, m)
+			g.add("obs %d", p)
 		} else if len(peers) > 1 && g.pick(5) == 0 {
 			// a replica that lags behind announces what it has: entries BELOW the heads of the partially
 			// loaded log arrive (the heads do not move, the view must still follow)
